@@ -102,6 +102,18 @@ CLAIMED = {
         technique="static analysis: bit-field layout algebra, must-pass-through ordering on clang CFG, must-facts at early returns, "
         "affine path summaries compared between sibling functions",
     ),
+    "C01": dict(
+        text="Static analysis of the current source. Decides structural necessary conditions only: get_bin_for_det_pair (cylindrical and "
+        "generic/blocks) has exactly the two dual outcomes selected by the swap flag of the det-pair table ((+timing, rings in order) / "
+        "(-timing, rings exchanged)) and get_det_pos_pair_for_bin exchanges the positions exactly for a negative TOF index and stores "
+        "|t|*mash; every read of a lazily built geometry table is preceded on every path by its ..._if_not_done_yet() (directly or via a "
+        "callee that initialises whenever it reports success); every function changing an input of the ring-difference tables resets "
+        "ring_diff_arrays_computed; table elements shared between copies of the object are replaced by fresh objects before being filled. "
+        "NOT decided: that the interleaving formula and its hand inversion are mutual inverses, that the Michelogram formulas partition "
+        "ring pairs, reported counts (modular arithmetic over runtime scanner parameters).",
+        technique="static analysis: branch-structure duality check, must-pass-through with success-conditional callee summaries, "
+        "setter invalidation, ownership rule for shared_ptr table elements",
+    ),
 }
 
 NOT_APPLICABLE = {
